@@ -43,7 +43,9 @@ ASSUMPTIONS = [
     "results crossing the type's maximum) checks that the implementation's coordinates equal them, i.e. never wrap; roll's "
     "can_store guard (a documented ValueError on compact index types, property C15) is accepted as a refusal there",
     "the constructor's duplicate-merging pass is the identity on the duplicate-free coordinates every producer hands over "
-    "(proved: results are canonical) and is not modelled; the operation cache (enable_caching) is C11/C13",
+    "(proved: results are canonical) and is not modelled; the operation cache (enable_caching) is not modelled either "
+    "(its protocol is C11/C13): the campaign's cache stream runs sequences of transpose/reshape calls on one cache-enabled "
+    "object and judges every step like a single call, i.e. checks that the cache is unobservable",
 ]
 UNPROVED = [
     "GCXS theorems are stated for arrays of the form _from_coo(c, ca) with c canonical (the form C05 proves for every "
@@ -208,6 +210,92 @@ def impl_op(case):
             if isinstance(ex, (ValueError, IndexError)):       # AxisError is both
                 ref["exc"] = "ValueError"
         out["np"] = ref
+    return out
+
+
+def impl_seq(case):
+    """several calls on ONE cache-enabled COO object; returns the raw result of every step"""
+    import warnings
+
+    import numpy as np
+    import sparse
+    warnings.filterwarnings("ignore")
+    spec = case["spec"]
+    x = vlib.build_array(spec)
+    x.enable_caching()
+    d = vlib.spec_dense(spec)
+    steps = []
+    for op in case["seq"]:
+        try:
+            out = vlib.plain(apply_op(sparse, x, op))
+        except Exception as ex:  # noqa: BLE001
+            out = vlib.plain(ex)
+        out["operand_changed"] = False
+        out["in_dtype"] = str(x.dtype)
+        try:
+            with np.errstate(all="ignore"):
+                ref = vlib.plain(np.array(apply_np(np, d, op)))
+        except Exception as ex:  # noqa: BLE001
+            ref = vlib.plain(ex)
+            if isinstance(ex, (ValueError, IndexError)):
+                ref["exc"] = "ValueError"
+        out["np"] = ref
+        steps.append(out)
+    return {"steps": steps}
+
+
+def seq_cases(tier, seed):
+    """sequences of transpose-family and reshape-family calls on the same cache-enabled array (the cache keeps the
+    last three results per family): both orders, repeated keys, more than three distinct keys; shapes with
+    zero-length axes, where a permutation tuple is also a legal target shape"""
+    rng = random.Random(seed + 31)
+    out = []
+    n = 40 if tier == "quick" else 300
+    shapes0 = [[0, 3], [3, 0], [0, 0, 2], [1, 0], [2, 0, 5], [4, 0], [0, 1], [0, 2, 1], [1, 0, 2]]
+    shapes1 = [[2, 3], [1, 2], [2, 1, 3], [3, 2, 2], [1, 1], [2, 2]]
+
+    def tfam(nd, p):
+        k = rng.choice(["transpose", "permute", "T", "swap", "move"])
+        if k == "T" or nd < 2:
+            return {"op": "T"}
+        if k == "swap":
+            a, b = rng.sample(range(nd), 2)
+            return {"op": "swapaxes", "a": a, "b": b - nd if rng.random() < 0.3 else b}
+        if k == "move":
+            a, b = rng.sample(range(nd), 2)
+            return {"op": "moveaxis", "s": a, "d": b}
+        return {"op": "transpose", "axes": list(p), "api": "method" if k == "transpose" else "permute_dims"}
+
+    for it in range(n):
+        sh = rng.choice(shapes0) if it % 3 else rng.choice(shapes1)
+        nd = len(sh)
+        size = 1
+        for d in sh:
+            size *= d
+        spec = vlib.gen_array_spec(rng, shape=sh, fills=(0, 3), density=rng.choice([0.4, 1.0]))
+        spec["format"], spec["caxes"] = "coo", None
+        perms = [list(p) for p in itertools.permutations(range(nd)) if list(p) != list(range(nd))]
+        if size == 0:
+            tg = perms + [[0], [0, 1], [1, 0], [0, 5], [2, 0, 1], [1, 0, 2], [-1], [0, -1]]
+        else:
+            tg = [f for k in (1, 2, 3) for f in ordered_factorizations(size, k)] + [[-1]]
+        L = rng.randint(2, 4) if it % 5 else rng.randint(5, 7)      # some longer ones: more than three distinct keys
+        seq = []
+        for j in range(L):
+            if (j + it) % 2 == 0:
+                p = rng.choice(perms)
+                seq.append(tfam(nd, p))
+                if size == 0 and rng.random() < 0.7:        # then ask for that very tuple as a shape
+                    seq.append({"op": "reshape", "shape": list(p), "api": rng.choice(["method", "func"])})
+            else:
+                t = rng.choice(tg)
+                seq.append({"op": "reshape", "shape": list(t), "api": rng.choice(["method", "func"])} if rng.random() < 0.85
+                           else {"op": "flatten"})
+                if size == 0 and sorted(t) == list(range(nd)) and t != list(range(nd)) and rng.random() < 0.7:
+                    seq.append({"op": "transpose", "axes": list(t), "api": "method"})
+            if seq and rng.random() < 0.25:
+                seq.append(dict(rng.choice(seq)))               # a repeated key
+        out.append({"spec": spec, "seq": seq})
     return out
 
 
@@ -802,6 +890,15 @@ def np_incomparable(c):
 
 def replay_line(case):
     s, op = case["spec"], case["op"]
+    if case.get("seq"):
+        return ("import sys; sys.path.insert(0,'/verif/tools'); import vlib, sparse, numpy as np; from props.c08 import apply_op, apply_np; "
+                f"s={json.dumps(s)}; seq={json.dumps(case['seq'])}; x=vlib.build_array(s); x.enable_caching(); d=vlib.spec_dense(s)\n"
+                "def t(f):\n"
+                "    try:\n"
+                "        r=f(); return (type(r).__name__, getattr(r,'shape',None))\n"
+                "    except Exception as e: return type(e).__name__+': '+str(e)[:100]\n"
+                "for op in seq: print(op, 'sparse (same cached object):', t(lambda: apply_op(sparse,x,op)), ' numpy:', t(lambda: apply_np(np,d,op)))"
+                ).replace("null", "None").replace("true", "True").replace("false", "False")
     return ("import sys; sys.path.insert(0,'/verif/tools'); import vlib, sparse, numpy as np; from props.c08 import apply_op, apply_np; "
             f"s={json.dumps(s)}; op={json.dumps(op)}; x=vlib.build_array(s, idx_dtype=s.get('idx_dtype')); d=vlib.spec_dense(s)\n"
             "def t(f):\n"
@@ -815,6 +912,13 @@ def campaign(build, tier, seed, report, budget=1):
     viol = []
     cases = gen_cases(tier, seed)
     res = vlib.run_impl("props.c08", "impl_op", cases, workers=6)
+    # sequences on one cache-enabled object: every step is judged like a single call (the cache must be unobservable)
+    sqs = seq_cases(tier, seed)
+    sres = vlib.run_impl("props.c08", "impl_seq", sqs, workers=6)
+    for sq, sr in zip(sqs, sres, strict=True):
+        for k, op in enumerate(sq["seq"]):
+            cases.append({"spec": sq["spec"], "op": op, "stream": "cache", "huge": False, "seq": sq["seq"][:k + 1]})
+            res.append(sr["steps"][k] if sr and "steps" in sr else sr)
     keep, lits, np_lits, np_idx = [], [], [], []
     not_offered = {}
     tags = {}
@@ -941,7 +1045,7 @@ def campaign(build, tier, seed, report, budget=1):
     cov["unproved_statements"] = UNPROVED
     cov["differential_only"] = ["GCXS and DOK results (dense meaning vs Spec)",
                                 "dtype of the result (compared with the operand's dtype in Python; int64/float64/int16/complex128)"]
-    cov["streams"] = {s: sum(1 for i in keep if cases[i]["stream"] == s) for s in ("valid", "malformed", "huge", "narrow")}
+    cov["streams"] = {s: sum(1 for i in keep if cases[i]["stream"] == s) for s in ("valid", "malformed", "huge", "narrow", "cache")}
     return viol
 
 
